@@ -14,13 +14,14 @@ for d in sorted(glob.glob(os.path.join(ROOT, "seeded", "C*"))):
     subs = sorted({re.search(r"check=(\S+)", c).group(1) for c in m.get("caught_by", []) if "check=" in c})
     kinds = sorted({re.search(r"kind=([^:]+)", c).group(1)[:60] for c in m.get("caught_by", []) if "kind=" in c})
     rows.append("| %s | %s | %s | %s | %s |" % (os.path.basename(d), m["property"], title.replace("|", "/")[:140],
-                ("obsolete (was detected)" if m.get("obsolete_since") else "yes" if m["detected"] else "no - " + m["not_demanded"][:160] if m.get("not_demanded") else "**no**"), ", ".join("`%s`" % s for s in subs) + (" — " + "; ".join(kinds) if kinds else "")))
+                ("obsolete (was detected)" if m.get("obsolete_since") else "yes" if m["detected"] else "no - " + m["not_demanded"][:160] if m.get("not_demanded") else "**no**"), ", ".join("`%s`" % s for s in subs) + (" — " + "; ".join(kinds) if kinds else "") + ((" · refactor.diff: check stays silent" if m.get("refactor_stays_silent") else " · refactor.diff: **ALARM**") if "refactor_stays_silent" in m else "")))
 out = ["# Seeded changes", "",
        "Each directory holds a change written by an independent sub-agent that saw only the property text and a scratch",
        "worktree of the library (nothing from /verif): `patch.diff`, its demonstration test, its `notes.md`, and `meta.json`",
        "with what `tools/seed_verify.sh` confirmed on a fresh copy (suite green with the change, demonstration fails with it",
        "and passes without it) and which sub-checks reported it. `-2` = second round (asked for a different function and",
-       "mechanism than the first). Patches apply to the /repo commit current when they were filed; see meta.json.", "",
+       "mechanism than the first); `-10` directories also hold `refactor.diff`, a property-preserving rewrite by the same sub-agent",
+       "on which the check must stay silent. Patches apply to the /repo commit current when they were filed; see meta.json.", "",
        "| dir | property | change | detected | by |", "|---|---|---|---|---|"] + rows
 open(os.path.join(ROOT, "seeded", "README.md"), "w").write("\n".join(out) + "\n")
 print(len(rows), "rows")
